@@ -80,6 +80,10 @@ def run(ctx):
         ctx.check(tuple(amp) == tuple(A.intersection(B, equal_beziers=False, end_points=False)), "A & B is not intersection(False, False)", desc)
         swapped = B.intersection(A)
         ctx.check(sorted((b, a, v, u) for a, b, u, v in A.intersection(B) if u is not None) == sorted(t for t in swapped if t[2] is not None), "operand swap does not swap (a,u) and (b,v)", desc)
+        if trans:       # (before B is moved in place below: the moved pair is no longer in general position)
+            k = len(A.intersection(B))
+            ctx.check(k % 2 == 0, "odd number of crossings of two closed curves in general position", desc, "even", k)
+            ctx.count("crossings:%d" % min(k, 8))
         if it % 3 == 0:
             # the same curve objects after an in-place move / scale of one of them
             dx, dy = F(rng.randint(-3, 3)), F(rng.randint(-3, 3), 2)
@@ -90,10 +94,6 @@ def run(ctx):
             exp2 = model_tuples(drv, vb2, va, True, True)
             ctx.case("intersection-after-transform", (tuple(va), tuple(vb), dx, dy, kk), nontrivial=len(exp2) > 0)
             ctx.check([tuple(x) for x in got2] == exp2, "intersection after an in-place move/scale differs from the model", {**desc, "move": (dx, dy), "scale": kk}, exp2, got2)
-        if trans:
-            k = len(A.intersection(B))
-            ctx.check(k % 2 == 0, "odd number of crossings of two closed curves in general position", desc, "even", k)
-            ctx.count("crossings:%d" % min(k, 8))
     # ---- curved corpus (deterministic)
     import math
     corpus = [("circle-square", Primitive.circle(radius=1), Primitive.square(side=F(3, 2)), 8),
